@@ -91,12 +91,12 @@ def expected_outcome(clauses, greedy, has_else, word):
 
 def harness_source(clauses_ir, greedy, else_mode):
     lines = ["out int m = 0;", "parser {", "    try {", "        %scase {" % ("greedy " if greedy else "")]
-    for marker, prio, pats in clauses_ir:
+    for marker, prio, pats, bang in clauses_ir:
         pre = ("prio %d " % prio) if (greedy and prio is not None) else ""
         ptxt = ", ".join(ir.print_match(p) for p in pats)
         if else_mode == "combined" and marker == clauses_ir[-1][0]:
             ptxt += ", else"
-        lines.append("            %s%s -> { m = %d; }" % (pre, ptxt, marker))
+        lines.append("            %s%s -> { m = %d; %s}" % (pre, ptxt, marker, '"!"; ' if bang else ""))
     if else_mode == "own":
         lines.append("            else -> { m = 90; }")
     lines += ["        }", "        \"Z\";", "        m = [m + 100];", "    }", "    catch (nomatch) {", "        m = [m + 1000];", "    }", "}"]
@@ -115,8 +115,10 @@ def check_case(shard, clauses_ir, greedy, else_mode, argv, max_len, do_c=True):
     comp = out.compiled
     m = am_mod.Machine(comp)
     clauses = []
-    for marker, prio, pats in clauses_ir:
+    bangs = {}
+    for marker, prio, pats, bang in clauses_ir:
         clauses.append((marker, prio, [ir.match_core(p) for p in pats]))
+        bangs[marker] = bang
     has_else = else_mode != "none"
     else_marker = 90 if else_mode == "own" else (clauses_ir[-1][0] if else_mode == "combined" else None)
     sets = set()
@@ -124,7 +126,7 @@ def check_case(shard, clauses_ir, greedy, else_mode, argv, max_len, do_c=True):
         for c in cores:
             sets |= rx.charsets_of(c)
     small = sorted(set(b for s_ in sets if len(s_) <= 6 for b in s_))
-    alphabet = small[:4] + [0x5a]
+    alphabet = small[:4] + [0x5a] + ([0x21] if any(bangs.values()) else [])
     outsider = next(b for b in (0x23, 0x7e, 0x00, 0x01, 0x02) if b not in alphabet and all(b not in s_ for s_ in sets if len(s_) <= 128))
     alphabet.append(outsider)
     words_for_c = []
@@ -159,13 +161,20 @@ def check_case(shard, clauses_ir, greedy, else_mode, argv, max_len, do_c=True):
                 mk, pos = None, r[1]
             if mk is None:
                 want = (pos, DONE, 1000)
-            elif pos >= len(word):
-                want = None     # clause decided but the byte after it not seen yet: m may or may not be assigned already
-                ok = tl.terminal is None and mval in (0, mk)
-            elif word[pos] == 0x5a:
-                want = (pos, DONE, mk + 100)
             else:
-                want = (pos, DONE, mk + 1000)
+                follow = (b"!" if bangs.get(mk) else b"") + b"Z"
+                want = None
+                for j, ch in enumerate(follow):
+                    if pos + j >= len(word):
+                        break
+                    if word[pos + j] != ch:
+                        want = (pos + j, DONE, mk + 1000)
+                        break
+                else:
+                    want = (pos + len(follow) - 1, DONE, mk + 100)
+                if want is None:
+                    # clause decided but what follows it not seen completely: m may or may not be assigned already
+                    ok = tl.terminal is None and mval in (0, mk)
             if want is not None and isinstance(want, tuple):
                 if len(word) > want[0]:
                     ok = tl.terminal is not None and tl.terminal == (want[0], want[1]) and mval == want[2]
@@ -182,7 +191,7 @@ def check_case(shard, clauses_ir, greedy, else_mode, argv, max_len, do_c=True):
                     if not live:
                         break
                 exp_marker = want[2] % 100 if isinstance(want, tuple) else None
-                if base in passed and base != exp_marker:
+                if base in passed and base != exp_marker and not bangs.get(base, False):
                     raise Failure("c08:greedy:action-of-passed-clause",
                                   "input %s: reference says %r -> expected %r, machine gives terminal=%r m=%d (marker of a clause that was only passed through)\n%s"
                                   % (word.hex(), r, want, tl.terminal, mval, src), dict(replay, input=word.hex()))
@@ -332,7 +341,23 @@ def check_lexer(shard, toks_ir, argv, words, cut_lists):
 # ------------------------------------------------------------------ strategies
 
 @st.composite
+def keyword_set(draw):
+    """Greedy 'keyword vs identifier' sets: a literal and a regex that also matches it, distinct priorities, action-only and real bodies mixed."""
+    word = bytes(draw(st.lists(st.sampled_from(list(b"ab")), min_size=1, max_size=3)))
+    ident = ("re", ("op", ("set", (("r", 0x61, 0x62),), False), "+"), False)
+    pk, pi = draw(st.sampled_from([(2, 1), (1, 2), (1, 0), (0, 1), (3, -1), (-1, -2), (1, None), (None, 1)]))
+    bk, bi = draw(st.sampled_from([(False, True), (True, False), (False, False), (True, True)]))
+    clauses = [(1, pk, (("lit", word, "str"),), bk), (2, pi, (ident,), bi)]
+    if draw(st.booleans()):
+        clauses.append((3, draw(st.sampled_from([None, 0, 5])), (("lit", b"c", "str"),), draw(st.booleans())))
+    order = draw(st.permutations(range(len(clauses))))
+    return [clauses[i] for i in order], True, draw(st.sampled_from(["none", "own"])), [draw(st.sampled_from(gen.OPT_LEVELS))]
+
+
+@st.composite
 def clause_set(draw):
+    if draw(st.integers(0, 4)) == 0:
+        return draw(keyword_set())
     greedy = draw(st.integers(0, 2)) == 0
     cfg = gen.GenConfig(wide_bytes=0.0, regex_weight=3)
     n = draw(st.integers(2, 5))
@@ -364,9 +389,9 @@ def clause_set(draw):
             pats.append(p)
         if pats:
             prio = draw(st.sampled_from([None, None, 0, 1, 2, -1, 5])) if greedy else None
-            clauses.append((i + 1, prio, tuple(pats)))
+            clauses.append((i + 1, prio, tuple(pats), draw(st.integers(0, 2)) == 0))
     if len(clauses) < 2:
-        clauses = [(1, None, (("lit", b"ab", "str"),)), (2, None, (("lit", b"ac", "str"),))]
+        clauses = [(1, None, (("lit", b"ab", "str"),), False), (2, None, (("lit", b"ac", "str"),), True)]
     else_mode = draw(st.sampled_from(["none", "own", "own", "combined"]))
     argv = [draw(st.sampled_from(gen.OPT_LEVELS))]
     return clauses, greedy, else_mode, argv
